@@ -226,6 +226,44 @@ def render(kind, K=2, cr=False):
     return Harness(body, args, describe=lambda a: dict(a, kind=kind, dbml=build(a)[0].dbml), bounds={'kind': kind, 'K': K})
 
 
+BLOCK_DOCS = {
+    'table': '{C}Table t {\n  id int\n}\n',
+    'enum': '{C}Enum e {\n  x\n}\n',
+    'ref': 'Table t {\n  id int\n}\n{C}Ref: t.id > t.id\n',
+    'group': 'Table t {\n  id int\n}\n{C}TableGroup g {\n  t\n}\n',
+}
+
+
+def block_roundtrip(kind):
+    """a two-line block comment above an element whose second line starts with a symbolic character (a blank included: block
+    comments keep the indentation of their continuation lines): the rendered DBML re-parses to the same comment"""
+    args = hole_args('b', 1, TIGHT_BLOCK) + [('c0', Cls('ASCII', minus='*/', plus='é'))] + hole_args('d', 1, TIGHT_BLOCK)
+
+    def build(a):
+        return BLOCK_DOCS[kind].replace('{C}', '/* ' + chr(a['b0']) + '\n' + chr(a['c0']) + chr(a['d0']) + ' */\n')
+
+    def body(a):
+        try:
+            db = docs.parse(build(a))
+        except Exception:
+            return 'document with a block comment rejected'
+        if region_active('c14_block_comment_indented_line') and a['c0'] == 32:
+            return ''
+        reached()
+        el = {'table': db.tables, 'enum': db.enums, 'ref': db.refs, 'group': db.table_groups}[kind][0]
+        if el.comment is None or len(el.comment) < 4:
+            return 'block comment above the element is not stored on it'
+        try:
+            db2 = docs.parse(db.dbml)
+        except Exception:
+            return 'DBML with a comment does not re-parse'
+        if content(db2) != content(db):
+            return 'comment (or something else) changed on DBML round trip'
+        return ''
+
+    return Harness(body, args, describe=lambda a: {'document': build(a)}, bounds={'kind': kind})
+
+
 def _nb(element, size=6):
     return (len(_positions(T.ELEMENTS[element])) + size - 1) // size
 
@@ -257,4 +295,6 @@ def instances(tier):
         add(f'render/{kind}', 'render', {'kind': kind, 'K': 1 if quick else 2}, T1)
     for kind in ('table', 'ref', 'enum_item'):
         add(f'render/{kind}/cr', 'render', {'kind': kind, 'K': 2, 'cr': True}, T1)
+    for kind in (('table', 'ref') if quick else BLOCK_DOCS):
+        add(f'block_roundtrip/{kind}', 'block_roundtrip', {'kind': kind}, T1)
     return out
